@@ -63,8 +63,21 @@ ModelAngles(d, s) ==
   ELSE LET a == FitAng(d, s)
        IN IF Temporal THEN [i \in 1..Len(a) |-> IF i > NoAng(d - 1) THEN 0 ELSE a[i]] ELSE a
 
-VarOf(vr, l, r) == IF Cls = "TPL" THEN Div(Mul(vr, l), r) ELSE vr
-RawOf(v, l, r)  == IF Cls = "TPL" THEN Div(Mul(v, r), l) ELSE v
+(* variance factor of the truncated power law models:
+   ((len_low + len)/rescale)^(2H) - (len_low/rescale)^(2H)) / (2H)
+   "TPL":  H = 1/2 fixed, optional argument = len_low  ->  len/rescale
+   "TPLH": len_low = 0, optional argument = H in {1/4 (=16), 1/2 (=32)}; H = 1/4 -> 2 sqrt(len/rescale),
+           evaluated on len/rescale in {1/4, 1, 4} where the square root is exact *)
+SqrtQ(q) == CASE q = 16 -> 32 [] q = 64 -> 64 [] q = 256 -> 128
+              [] OTHER -> Assert(FALSE, <<"inexact square root", q>>)
+VarFac(o, l, r) == CASE Cls = "TPL" -> Div(l, r)
+                     [] Cls = "TPLH" -> (IF o = 32 THEN Div(l, r) ELSE 2 * SqrtQ(Div(l, r)))
+                     [] OTHER -> U
+IsTPL == Cls \in {"TPL", "TPLH"}
+VarOfO(vr, l, r, o) == IF IsTPL /\ l > 0 THEN Mul(vr, VarFac(o, l, r)) ELSE vr
+RawOfO(v, l, r, o)  == IF IsTPL THEN Div(v, VarFac(o, l, r)) ELSE v
+VarOf(vr, l, r) == VarOfO(vr, l, r, opt)
+RawOf(v, l, r)  == RawOfO(v, l, r, opt)
 var == VarOf(varRaw, len, rescale)
 
 B(lo, hi, lc, hc) == [lo |-> lo, hi |-> hi, lc |-> lc, hc |-> hc]
@@ -85,7 +98,7 @@ DefFrom(b) == IF b.lo > -Inf /\ b.hi < Inf THEN (b.lo + b.hi) \div 2
               ELSE IF b.lo > -Inf THEN b.lo + U ELSE b.hi - U
 
 AllIn(b, vr, l, an, ng, r, o) ==
-  /\ InB(b["var"], VarOf(vr, l, r))
+  /\ InB(b["var"], VarOfO(vr, l, r, o))
   /\ InB(b["len_scale"], l)
   /\ InB(b["nugget"], ng)
   /\ \A i \in 1..Len(an) : InB(b["anis"], an[i])
@@ -236,7 +249,7 @@ SeqsOf(S, lo, hi) == UNION {[1..n -> S] : n \in lo..hi}
 
 Next ==
   \/ \E v \in VarVals \cup BadVals : SetVar(v)
-  \/ (Cls = "TPL" /\ \E v \in VarVals \cup BadVals : SetVarRaw(v))
+  \/ (IsTPL /\ \E v \in VarVals \cup BadVals : SetVarRaw(v))
   \/ \E n \in NugVals : SetNugget(n)
   \/ \E l \in LenVals \cup BadVals : SetLenScalar(l)
   \/ \E ls \in SeqsOf(LenVals, 2, 3) : SetLenList(ls)
